@@ -2070,7 +2070,10 @@ func c16PagesAPICase(ctx *core.Ctx, d c16Asker, r *rand.Rand, k int) {
 			row := r.Int63n(int64(nrows))
 			target := pageOf(row)
 			same := "0"
-			if lastIdx >= 0 && target == lastIdx {
+			// file.go SeekToRow: the cached page is served only when the target is the last returned page
+			// AND the stream still stands right behind it (`f.index == target+1`; not so when another
+			// seek moved it since) - otherwise the page is read again
+			if lastIdx >= 0 && target == lastIdx && nextIdx == lastIdx+1 {
 				same = "1"
 			} else if nextIdx != target {
 				nextIdx = target
